@@ -78,12 +78,12 @@ def norm_ast(expr: str) -> Optional[str]:
     return ast.dump(t)
 
 
-def layout(rng: random.Random, items: List[Tuple[str, Optional[str]]], is_async: bool) -> Tuple[str, int]:
+def layout(rng: random.Random, items: List[Tuple[str, Optional[str]]], is_async: bool, glob: bool = False) -> Tuple[str, int]:
     """Source of a function containing the with statement; returns (source, line of the `with` keyword)."""
     kw = "async with" if is_async else "with"
     parts = [f"{cm}" + (f" as {t}" if t is not None else "") for cm, t in items]
     style = rng.choice(["one", "paren_multi", "paren_one", "backslash"]) if len(items) > 1 or rng.random() < 0.5 else "one"
-    pre = ["    loc = G = None", "    pad = 1"] + ["    pad += 1"] * rng.randint(0, 3)
+    pre = (["    global G", "    loc = None"] if glob else ["    loc = G = None", "    pad = 1"]) + ["    pad += 1"] * rng.randint(0, 3)
     if style == "one":
         stmt = [f"    {kw} " + ", ".join(parts) + ":"]
     elif style == "paren_one":
@@ -100,6 +100,74 @@ def layout(rng: random.Random, items: List[Tuple[str, Optional[str]]], is_async:
     return "\n".join(lines) + "\n", 1 + len(pre) + 1
 
 
+def to_term(target: str, glob: bool):
+    """The target as a term of the Lean grammar (SS.Target.Tgt), an independent count of the instructions the model compiler
+    should emit for it, and its text rendered by the documented conventions."""
+    t = ast.parse(target, mode="eval").body
+
+    def scope(name):
+        return "global" if (glob and name == "G") else "fast"
+
+    def expr(n):
+        if isinstance(n, ast.Name):
+            return ["var", scope(n.id), n.id], 1, n.id
+        if isinstance(n, ast.Constant):
+            return ["const", repr(n.value)], 1, repr(n.value)
+        if isinstance(n, ast.Attribute):
+            e, k, r = expr(n.value)
+            return ["attr", e, n.attr], k + 1, f"{r}.{n.attr}"
+        if isinstance(n, ast.Subscript):
+            c, k1, r1 = expr(n.value)
+            i, k2, r2 = expr(n.slice)
+            return ["subscr", c, i], k1 + k2 + 1, f"{r1}[{r2}]"
+        if isinstance(n, ast.Call):
+            f, k, r = expr(n.func)
+            pn = not (isinstance(n.func, ast.Attribute) or (isinstance(n.func, ast.Name) and scope(n.func.id) == "global"))
+            args = [expr(a) for a in n.args]
+            return (["call", pn, f, [a[0] for a in args]], (1 if pn else 0) + k + sum(a[1] for a in args) + 1 + (len(args) >= 256),
+                    f"{r}({', '.join(a[2] for a in args)})")
+        raise ValueError(type(n).__name__)
+
+    def fmt(vals):
+        return f"({vals[0]},)" if len(vals) == 1 else "(" + ", ".join(vals) + ")"
+
+    def tgt(n):
+        if isinstance(n, ast.Name):
+            return ["var", scope(n.id), n.id], 1, n.id
+        if isinstance(n, ast.Attribute):
+            e, k, r = expr(n.value)
+            return ["attr", e, n.attr], k + 1, f"{r}.{n.attr}"
+        if isinstance(n, ast.Subscript):
+            c, k1, r1 = expr(n.value)
+            i, k2, r2 = expr(n.slice)
+            return ["subscr", c, i], k1 + k2 + 1, f"{r1}[{r2}]"
+        if isinstance(n, (ast.Tuple, ast.List)):
+            star = [k for k, e in enumerate(n.elts) if isinstance(e, ast.Starred)]
+            if not star:
+                ts = [tgt(e) for e in n.elts]
+                return ["tuple", [x[0] for x in ts]], 1 + (len(ts) >= 256) + sum(x[1] for x in ts), fmt([x[2] for x in ts])
+            k = star[0]
+            b = [tgt(e) for e in n.elts[:k]]
+            st = tgt(n.elts[k].value)
+            a = [tgt(e) for e in n.elts[k + 1:]]
+            return (["starred", [x[0] for x in b], st[0], [x[0] for x in a]], 1 + (len(a) >= 1) + sum(x[1] for x in b + [st] + a),
+                    fmt([x[2] for x in b] + ["*" + st[2]] + [x[2] for x in a]))
+        raise ValueError(type(n).__name__)
+
+    return tgt(t)
+
+
+NAME_OPS = {"LOAD_GLOBAL", "LOAD_FAST", "LOAD_NAME", "LOAD_DEREF", "STORE_GLOBAL", "STORE_FAST", "STORE_NAME", "STORE_DEREF",
+            "LOAD_FAST_CHECK", "LOAD_ATTR", "STORE_ATTR", "LOAD_METHOD"}
+
+
+def canon_row(i: dis.Instruction) -> str:
+    av = i.argval if (i.opname in NAME_OPS and isinstance(i.argval, str)) else ""
+    arg = i.arg if i.opname in ("UNPACK_SEQUENCE", "UNPACK_EX", "CALL") else 0
+    rep = i.argrepr if i.opname == "LOAD_CONST" else ""
+    return f"{i.opname}/{av}/{arg}/{rep}"
+
+
 def insn_row(i: dis.Instruction) -> list:
     av = i.argval
     return [i.opname, av if isinstance(av, str) else "", i.arg if isinstance(i.arg, int) else 0, i.argrepr or ""]
@@ -112,7 +180,7 @@ class C08(PropCheck):
             "grammar plus a list of unsupported forms, four layouts; plus the with statements of a sample of (quick: 60 files) / all of "
             "(thorough) the standard library; non-trivial = the item has an `as` target that is not a plain local name")
     manifest = {
-        "text": "Lean: a line-by-line transcription of describe_assignment_target as a total fuel-bounded symbolic stack machine, with C08_name / C08_attr / C08_subscr / C08_call (each supported form, over arbitrarily nested load expressions compiled by the modelled codegen, renders to its source text), C08_tuple (unpacking of any arity, starred element anywhere, nested to any depth, by structural induction), C08_one_tuple_comma, and C08_unsupported_is_none (an opcode outside the supported set makes the result None, never a wrong string). Tie: the transcription is diffed against the real function on the instruction lists of generated and standard-library with statements; the oracle compares analyze_with_blocks with the source AST (start_line, varname).",
+        "text": "Lean: a line-by-line transcription of describe_assignment_target as a total fuel-bounded symbolic stack machine (SSModel/Target.lean), a grammar of `as` targets with a model of CPython 3.12's code generation for them (compileStore, incl. PUSH_NULL placement and EXTENDED_ARG prefixes) and their source text. C08_target: for every well-formed target — names of any scope, attributes, subscripts and positional calls over arbitrarily nested load expressions, tuple unpacking of any arity nested to any depth, one starred element anywhere — the machine run on the compiled instructions, with the fuel bound the transcription uses and whatever follows, returns exactly the source text (mutual structural induction); C08_name / C08_attr / C08_subscr / C08_call / C08_tuple / C08_starred are its instances; C08_one_tuple_comma; C08_unsupported_is_none / C08_unsupported_first: an opcode outside the supported set, right away or after any load-expression prefix, makes the result None, never a wrong string. Tie: (a) the transcription is diffed against the real function on the instruction lists of generated and standard-library with statements; (b) the compiler model is diffed against dis on every generated supported target (instruction by instruction), together with the rendered text; (c) the oracle compares analyze_with_blocks with the source AST (start_line, varname).",
         "note": "That BEFORE_WITH carries the line of the with keyword, and what CPython's compiler emits for store targets, are compiler facts measured here (compileStore is a model of them for 3.12). CPython 3.12 only in this sandbox's dependency-complete interpreter; 3.9-3.11 paths are not exercised.",
     }
     assumptions = ["dis.Bytecode's argval / argrepr as in CPython 3.12", "the compiler attaches the with keyword's line to BEFORE_WITH"]
@@ -128,7 +196,7 @@ class C08(PropCheck):
                 r = rng.random()
                 t = None if r < 0.15 else (rng.choice(UNSUPPORTED) if r < 0.25 else rand_target(rng, rng.randint(0, dmax)))
                 items.append([rng.choice(["cm", "cm2", "open(a)"]), t])
-            out.append({"k": "gen", "items": items, "async": rng.random() < 0.4, "lseed": rng.randrange(1 << 30)})
+            out.append({"k": "gen", "items": items, "async": rng.random() < 0.4, "lseed": rng.randrange(1 << 30), "glob": rng.random() < 0.3})
         for t in UNSUPPORTED:
             out.append({"k": "gen", "items": [["cm", t]], "async": False, "lseed": 1})
         files = stdlib_files()
@@ -143,7 +211,7 @@ class C08(PropCheck):
         self._probs: List[str] = []
         if case["k"] == "file":
             return self.run_file(case["path"])
-        src, with_line = layout(random.Random(case["lseed"]), [tuple(x) for x in case["items"]], case["async"])
+        src, with_line = layout(random.Random(case["lseed"]), [tuple(x) for x in case["items"]], case["async"], case.get("glob", False))
         ns: Dict[str, Any] = {}
         try:
             code = compile(src, "<c08>", "exec")
@@ -186,6 +254,15 @@ class C08(PropCheck):
             real = describe_assignment_target(insns, idx)
             outs.append("None" if real is None else "S:" + real)
             case["_insns"].append([insn_row(i) for i in insns[idx:idx + 60]])
+            # the model of the compiler (compileStore) against dis, for targets inside the documented grammar
+            if target is not None and target not in UNSUPPORTED and self.is_supported(target):
+                try:
+                    term, count, text = to_term(target, case.get("glob", False))
+                except ValueError:
+                    term = None
+                if term is not None:
+                    case["_insns"].append({"tgt": term})
+                    outs.append(" ".join(canon_row(i) for i in insns[idx:idx + count]) + " => " + ("None" if real is None else "S:" + real) + " => " + text)
             if real != ctx.varname:
                 self._probs.append(f"analyze_with_blocks handed describe_assignment_target another instruction: {ctx.varname!r} vs {real!r}")
         return "§".join(outs)
@@ -279,7 +356,7 @@ class C08(PropCheck):
     def model_lines(self, case):
         if case["k"] != "gen" or case.get("_skip") or "_insns" not in case:
             return None
-        return [json.dumps({"p": "C08", "insns": rows}) for rows in case["_insns"]]
+        return [json.dumps({"p": "C08", **rows}) if isinstance(rows, dict) else json.dumps({"p": "C08", "insns": rows}) for rows in case["_insns"]]
 
     def model_line(self, case):
         return None
@@ -298,7 +375,8 @@ class C08(PropCheck):
         return None
 
     def stats(self, cases, reals):
-        d = {"generated": 0, "files": 0, "stdlib_with_blocks": 0, "items": 0, "rendered": 0, "none": 0, "unsupported_items": 0}
+        d = {"generated": 0, "files": 0, "stdlib_with_blocks": 0, "items": 0, "rendered": 0, "none": 0, "unsupported_items": 0,
+             "compiler_model_compared": sum(sum(isinstance(r, dict) for r in c.get("_insns", [])) for c in cases)}
         for c, r in zip(cases, reals):
             if c["k"] == "gen":
                 d["generated"] += 1
